@@ -273,9 +273,36 @@ fn all_strings(rec: &str) -> Vec<String> {
 fn canon(recs: &[String]) -> Vec<String> {
     recs.iter().map(|r| {
         let mut m: Vec<String> = vec![]; let mut toks = vec![];
+        let mut after_o = false;
         for t in r.split(' ') {
             if t.starts_with("V:") { let id = t.split(':').nth(1).unwrap_or("").to_string(); let k = match m.iter().position(|x| *x == id) { Some(k) => k, None => { m.push(id); m.len() - 1 } }; let name = t.split(':').nth(2).unwrap_or(""); toks.push(format!("V#{}:{}", k, name)); }
+            else if after_o && !t.is_empty() && t != "," {
+                // captured output: an unbound variable is printed as `$Name_<id>`; the id is renumbered like the ids of the answers
+                match unhex(t) {
+                    Some(text) => {
+                        let cs: Vec<char> = text.chars().collect(); let mut o = String::new(); let mut i = 0;
+                        while i < cs.len() {
+                            if cs[i] == '$' && i + 1 < cs.len() && cs[i + 1].is_alphabetic() {
+                                let mut j = i + 1; while j < cs.len() && (cs[j].is_alphanumeric() || cs[j] == '_') { j += 1; }
+                                let word: String = cs[i..j].iter().collect();
+                                match word.rfind('_') {
+                                    Some(u) if u + 1 < word.len() && word[u + 1..].chars().all(|c| c.is_ascii_digit()) => {
+                                        let id = word[u + 1..].to_string();
+                                        let k = match m.iter().position(|x| *x == id) { Some(k) => k, None => { m.push(id); m.len() - 1 } };
+                                        o.push_str(&format!("{}_#{}", &word[..u], k));
+                                    },
+                                    _ => o.push_str(&word),
+                                }
+                                i = j;
+                            } else { o.push(cs[i]); i += 1; }
+                        }
+                        toks.push(format!("T:{}", hex(&o)));
+                    },
+                    None => toks.push(t.to_string()),
+                }
+            }
             else { toks.push(t.to_string()); }
+            after_o = t == "O";
         }
         toks.join(" ")
     }).collect()
